@@ -39,6 +39,9 @@ def units(tier):
             yield {"t": "prog", "prog": p}
     for e in corpus.repo_examples():
         yield {"t": "example", "id": e["id"]}
+    if tier == "thorough":
+        for f in corpus.stdlib_files():
+            yield {"t": "stdlib", "file": f}
     files_keys = [m[0] for m in surface.modules(1)]
     for i in range(0, len(files_keys), 20):
         yield {"t": "files", "keys": files_keys[i : i + 20]}
@@ -143,6 +146,11 @@ def run_unit(unit):
         top, cls = surface.surface(src)
         v, s, _ = check_text(src, top, cls, {"prog": unit["prog"]})
         tally(v, s, key_of(["p", unit["prog"]]), {"program": unit["prog"]})
+    elif unit["t"] == "stdlib":
+        src = corpus.stdlib_files()[unit["file"]]
+        top, cls = surface.surface(src)
+        v, s, _ = check_text(src, top, cls, {"stdlib": unit["file"]})
+        tally(v, s, key_of(["std", unit["file"]]), {"stdlib": unit["file"]})
     elif unit["t"] == "example":
         src = c03.get_input(["example", unit["id"]])
         if c03.level(src) >= 2:
@@ -165,6 +173,8 @@ def replay(desc):
         return check_text(code, top, cls, desc)[0]
     if "prog" in desc:
         src = progs.build(desc["prog"]["atoms"], desc["prog"]["ctx"])
+    elif "stdlib" in desc:
+        src = corpus.stdlib_files()[desc["stdlib"]]
     else:
         src = c03.get_input(["example", desc["example"]])
     top, cls = surface.surface(src)
